@@ -9,7 +9,7 @@ import (
 func init() {
 	register("C39", []string{".", "./objstorage/...", "./internal/manifest", "./valsep"}, runC39)
 	propExplain["C39"] = "Decides ownership/ordering clauses of C39: objects are removed from the provider only by the obsolete-file deleter, the ingest's own cleanup of files it linked, and the copy-compaction's delete-on-exit; files are enqueued for deletion only by deleteObsoleteFiles, which does nothing while deletions are disabled and obsoletes WALs only below the durable minUnflushedLogNum; the obsolete lists are written only by their owners; files become obsolete only through the version-refcount callback, the flushable's last-reader unref, and the failure arms that dispose of their own outputs; zombie sets are updated before the new version is installed; every read-state/version reference is released or owned (C04.P1–P3); a compaction output object that was created is handed to the caller / result on every later exit (so failure arms can dispose of it). Does not decide refcount arithmetic at run time."
-	propTechnique["C39"] = "who-may-call/write (module-wide), SSA ordering, resource pairing, created-object disposal obligation"
+	propTechnique["C39"] = "who-may-call/write (module-wide), SSA ordering and guard dataflow, resource pairing, created-object disposal obligation"
 }
 
 func runC39(c *Ctx) {
